@@ -398,6 +398,30 @@ impl Val for P12 {
     }
 }
 
+/// Large plain data (128 bytes): makes wide records.
+impl Val for [u64; 16] {
+    const CLASS: u8 = 0;
+    const TRACKED: bool = false;
+    fn make(pay: u64) -> Self {
+        let mut a = [0u64; 16];
+        for (i, x) in a.iter_mut().enumerate() {
+            *x = pay.wrapping_mul(i as u64 + 1) ^ (i as u64);
+        }
+        a
+    }
+    fn obs(&self) -> Obs {
+        let pay = self[0];
+        let ok = self.iter().enumerate().all(|(i, x)| *x == pay.wrapping_mul(i as u64 + 1) ^ (i as u64));
+        Obs { inst: 0, pay: if ok { pay } else { !pay } }
+    }
+    fn set_pay(&mut self, pay: u64) {
+        *self = Self::make(pay);
+    }
+    fn norm(pay: u64) -> u64 {
+        pay
+    }
+}
+
 impl Val for () {
     const CLASS: u8 = 0;
     const TRACKED: bool = false;
